@@ -55,7 +55,7 @@ impl<'a> Runner<'a> {
         }
         let ws = fill(pat, &f);
         let insn = decode_words(&ws);
-        let pc = *rng.pick(&self.pc_pool);
+        let pc = *rng.pick(&self.pc_pool) | rng.chance(1, 10) as u32; // bit 0 of PC is ignored by fetch
         let mut c = Case::words(pc, &ws);
         c.er = gen::regs(rng);
         c.ccr = ccr;
